@@ -1,17 +1,25 @@
 """C19 - imported ephemerides / observations are used faithfully; the importer stays read-only.
 
-1. TLC checks Importer.tla exhaustively over EVERY importer row set (two scenario agents, two
-   unrelated agents, two epochs, every realtime/imported mix, every observation set):
-   ImportFaithful, NoStaleState (a gap must raise), ObsReachFilter, ImporterReadOnly; the
-   as-coded count-based completeness check (D9) must yield a counterexample.
+1. TLC checks Importer.tla exhaustively over EVERY importer database over two scenario agents and
+   unrelated agents (every set of Epoch rows: all present, a hole across all agents, every other
+   epoch, a database that ends early; every set of ephemeris rows hanging on them; every
+   realtime/imported mix; an agent joining mid-run) and over EVERY engine partition of two
+   sensors / two targets with every observation set (cross-engine observations, shared targets):
+   ImportFaithful, NoStaleState (a gap must raise), ObsReachFilter (exactly once),
+   ImporterReadOnly.  Four named deviations must each yield a counterexample: CountBasedCheck
+   (D9), SkipEpochWithoutRow, LoadEveryEngine (D28), LoadOnlyOwnTargets.
 2. impl -> spec: a real realtime run produces a source database; importer databases are DERIVED
    from it with plain sqlite3 (exact copy; supersets with unrelated agents; subsets with a gap
-   at a chosen epoch for a chosen registered agent, with and without unrelated extras; thinned
-   observation rows) and the REAL scenario is run against each (targets imported / sensors
-   imported / both; imported observations).  Per step the driver logs which database record
-   each imported agent's state is bit-equal to, whether MissingEphemerisError was raised, the
-   observations handed to every EstUpdate job, and the SHA-256 of the importer file before and
-   after; TLC validates the traces against TraceImporter.tla.
+   at a chosen epoch for a chosen registered agent, with and without unrelated extras; epochs
+   removed ALTOGETHER - Epoch row and every record hanging on it: a hole, every other epoch, the
+   tail of the run, everything; thinned observation rows) and the REAL scenario is run against
+   each (targets imported / sensors imported / both; imported observations; one engine, two
+   engines with the partition of the source run or ANOTHER one, so that the database holds
+   observations whose sensor and target belong to different engines).  Per step the driver logs
+   which database record each imported agent's state is bit-equal to, whether
+   MissingEphemerisError was raised, what every engine loaded, the observations handed to every
+   EstUpdate job, and the SHA-256 of the importer file before and after; TLC validates the traces
+   against TraceImporter.tla and names the formula a rejected trace breaks.
 """
 from __future__ import annotations
 
@@ -35,7 +43,27 @@ def _sha(path):
     return hashlib.sha256(open(path, "rb").read()).hexdigest()
 
 
-def _base_cfg(fam, importer=False, mode=None):
+def _partition(cfg, how):
+    """Split the single engine of `cfg` into two tasking engines (sensors are partitioned, targets may be shared)."""
+    import copy as _copy
+    eng = cfg["engines"][0]
+    e2 = _copy.deepcopy(eng)
+    e2["unique_id"] = eng["unique_id"] + 1
+    T, S = eng["targets"], eng["sensors"]
+    if how == "split":        # disjoint networks
+        (t1, t2) = (T[:1], T[1:])
+    elif how == "swapped":    # the same sensor halves, the targets exchanged
+        (t1, t2) = (T[1:], T[:1])
+    elif how == "shared":     # the first engine tracks everything, the second one shares the later targets
+        (t1, t2) = (T[:], T[1:])
+    else:
+        raise ValueError(how)
+    e2["targets"], e2["sensors"] = _copy.deepcopy(t2), S[2:]
+    eng["targets"], eng["sensors"] = _copy.deepcopy(t1), S[:2]
+    cfg["engines"] = [eng, e2]
+
+
+def _base_cfg(fam, importer=False, mode=None, partition="family"):
     from harness import scenario_util as su
     # minimal_init.json: one target (ISS) and sensors at shared sites (RTS MMW / RTS TRADEX are ~200 m apart, the MSSS
     # telescopes ~100 m); the greedy policy makes several sensors observe the same target at the same epoch, so the
@@ -44,15 +72,12 @@ def _base_cfg(fam, importer=False, mode=None):
                          decision="MyopicNaiveGreedyDecision", model="two_body", seed=3, template="minimal_init.json",
                          extra_targets=[su.target_cfg(50001 + i, sma_km=7100.0 + 200 * i, inc_deg=30.0 + 15 * i, ta_deg=40.0 * i)
                                         for i in range(fam["nt"] - 1)])
-    if fam.get("two_engines"):
-        # two tasking engines with disjoint networks: each loads imported observations in its own assess()
-        import copy as _copy
-        eng = cfg["engines"][0]
-        e2 = _copy.deepcopy(eng)
-        e2["unique_id"] = eng["unique_id"] + 1
-        e2["targets"], e2["sensors"] = eng["targets"][1:], eng["sensors"][2:]
-        eng["targets"], eng["sensors"] = eng["targets"][:1], eng["sensors"][:2]
-        cfg["engines"] = [eng, e2]
+    # several tasking engines: each loads imported observations in its own assess(); the run that reads the importer
+    # database may partition the agents differently from the run that produced it
+    if partition == "family":
+        partition = fam.get("src_partition")
+    if partition:
+        _partition(cfg, partition)
     if fam.get("add_at"):
         # a target joins the scenario mid-run (public target_addition event) in the source run AND in every variant
         from harness.drivers import c01
@@ -105,6 +130,14 @@ def _derive(src, dst, var, fam):
                         "vel_y_km_p_sec, vel_z_km_p_sec) VALUES (?,?,?,?,?,?,?,?)", (jd, uid, 7000.0 + n, 0.0, 0.0, 0.0, 7.5, 0.0))
     for aid, j in var.get("gaps", []):
         cur.execute("DELETE FROM truth_ephemerides WHERE agent_id = ? AND julian_date = ?", (aid, jds[j]))
+    # epochs absent ALTOGETHER: the Epoch row and every record of any table hanging on it
+    if var.get("drop_epochs"):
+        tables = [r[0] for r in cur.execute("SELECT name FROM sqlite_master WHERE type = 'table' AND name != 'epochs'").fetchall()]
+        tables = [t for t in tables if any(c[1] == "julian_date" for c in cur.execute(f"PRAGMA table_info({t})").fetchall())]
+        for j in var["drop_epochs"]:
+            for t in tables:
+                cur.execute(f"DELETE FROM {t} WHERE julian_date = ?", (jds[j],))
+            cur.execute("DELETE FROM epochs WHERE julian_date = ?", (jds[j],))
     if var.get("drop_obs"):
         rows = [r[0] for r in cur.execute("SELECT id FROM observations ORDER BY id")]
         for i, rid in enumerate(rows):
@@ -114,19 +147,26 @@ def _derive(src, dst, var, fam):
     con.close()
 
 
-def _importer_tables(path, fam):
-    """(rows {(agent, k): 6-tuple}, obs [(k, t, s)]) read with plain sqlite3."""
+def _epoch_keys(path):
+    con = sqlite3.connect(path)
+    jds = [r[0] for r in con.execute("SELECT julian_date FROM epochs ORDER BY julian_date")]
+    con.close()
+    return jds
+
+
+def _importer_tables(path, src_jds):
+    """(rows {(agent, k): 6-tuple}, obs [(k, t, s)], epochs [k]) read with plain sqlite3; k = step index in the SOURCE run."""
     con = sqlite3.connect(path)
     cur = con.cursor()
-    jds = [r[0] for r in cur.execute("SELECT julian_date FROM epochs ORDER BY julian_date")]
-    kof = {jd: i for i, jd in enumerate(jds)}
+    kof = {jd: i for i, jd in enumerate(src_jds)}
+    epochs = sorted(kof[r[0]] for r in cur.execute("SELECT julian_date FROM epochs"))
     rows = {}
     for r in cur.execute("SELECT julian_date, agent_id, pos_x_km, pos_y_km, pos_z_km, vel_x_km_p_sec, vel_y_km_p_sec, vel_z_km_p_sec "
                          "FROM truth_ephemerides"):
         rows[(int(r[1]), kof[r[0]])] = tuple(float(x) for x in r[2:])
     obs = [(kof[r[0]], int(r[1]), int(r[2])) for r in cur.execute("SELECT julian_date, target_id, sensor_id FROM observations")]
     con.close()
-    return rows, obs
+    return rows, obs, epochs
 
 
 def _run_variant(fam, var, src, workdir):
@@ -136,29 +176,43 @@ def _run_variant(fam, var, src, workdir):
     from resonaate.common.exceptions import MissingEphemerisError
     from resonaate.dynamics.importer import EphemerisImporter
     from resonaate.parallel import estimate_update as eu
+    from resonaate.tasking.engine.centralized_engine import CentralizedTaskingEngine
     dst = os.path.join(workdir, f"imp_{var['name']}.sqlite3")
     _derive(src, dst, var, fam)
-    rows, obs = _importer_tables(dst, fam)
+    rows, obs, epochs = _importer_tables(dst, _epoch_keys(src))
     before = _sha(dst)
-    cfg = _base_cfg(fam, importer=True, mode=var["mode"])
-    tids = [t["id"] for e in cfg["engines"] for t in e["targets"]]
+    cfg = _base_cfg(fam, importer=True, mode=var["mode"], partition=var.get("partition", "family"))
+    tids = list(dict.fromkeys(t["id"] for e in cfg["engines"] for t in e["targets"]))
     sids = [s["id"] for e in cfg["engines"] for s in e["sensors"]]
+    engines = [[int(e["unique_id"]), [s["id"] for s in e["sensors"]], [t["id"] for t in e["targets"]]] for e in cfg["engines"]]
     born = {}
     if fam.get("add_at"):
         from harness.drivers import c01
         tids = tids + [c01.NEW_TARGET_ID]
         born[c01.NEW_TARGET_ID] = fam["add_at"]
+        engines[0][2].append(c01.NEW_TARGET_ID)       # the addition event names the first engine
     imported = (tids if "t" in var["mode"] else []) + (sids if "s" in var["mode"] else [])
     A = lambda i: f"a{i}"  # noqa: E731
     # the observation table only matters when observations are imported
     trace = [{"ev": "Config", "agents": [A(i) for i in tids + sids], "imported": [A(i) for i in imported],
               "targets": [A(i) for i in tids],
+              "epochs": [k for k in epochs if k >= 1],
               "rows": sorted([A(a), k] for (a, k) in rows if k >= 1),
               "obs": sorted([k, A(t), A(s)] for (k, t, s) in obs if k >= 1),
+              "engines": [[e, [A(i) for i in ss], [A(i) for i in tt]] for e, ss, tt in engines],
               "nsteps": fam["nsteps"], "born": [[A(i), born.get(i, 0)] for i in tids + sids]}]
     state = {"k": 0, "raised": False, "updates": {}}
     orig_import = EphemerisImporter.importEphemerides
     orig_gen = eu.EstUpdateRegistration.generateSubmission
+    orig_load = CentralizedTaskingEngine.loadImportedObservations
+
+    def kof(o):
+        return int(round((float(o.julian_date) - float(state["app"].clock.julian_date_start)) * 86400.0 / fam["step"]))
+
+    def load(self, datetime_epoch):
+        res = orig_load(self, datetime_epoch)
+        trace.append({"ev": "EngineLoad", "engine": int(self.unique_id), "loaded": sorted([kof(o), A(o.target_id), A(o.sensor_id)] for o in res)})
+        return res
 
     def held_proj(app):
         out = []
@@ -194,13 +248,13 @@ def _run_variant(fam, var, src, workdir):
     def gen(self):
         sub = orig_gen(self)
         state["updates"][self._registrant.simulation_id] = [
-            [int(round((float(o.julian_date) - float(state["app"].clock.julian_date_start)) * 86400.0 / fam["step"])),
-             A(o.target_id), A(o.sensor_id)] for o in self._observations if getattr(o, "id", None) is not None]
+            [kof(o), A(o.target_id), A(o.sensor_id)] for o in self._observations if getattr(o, "id", None) is not None]
         # (observations loaded from the importer database carry their primary key; those made in this run do not)
         return sub
 
     EphemerisImporter.importEphemerides = imp
     eu.EstUpdateRegistration.generateSubmission = gen
+    CentralizedTaskingEngine.loadImportedObservations = load
     crashed = None
     try:
         np.random.seed(2)
@@ -230,6 +284,7 @@ def _run_variant(fam, var, src, workdir):
     finally:
         EphemerisImporter.importEphemerides = orig_import
         eu.EstUpdateRegistration.generateSubmission = orig_gen
+        CentralizedTaskingEngine.loadImportedObservations = orig_load
         try:
             from resonaate.data import clearDBPath
             clearDBPath()
@@ -259,6 +314,22 @@ def _run_family(fam):
         shutil.rmtree(workdir, ignore_errors=True)
 
 
+def _run_mc(name, workdir, workers, coverage):
+    from pathlib import Path
+    return tlc.run_tlc("MCImporter", name, Path(workdir), workers=workers, timeout=3000, coverage=coverage)
+
+
+def _positions(res):
+    """Per trace: the furthest line TLC reached and, if it is stuck there, the formula the next record breaks (Why)."""
+    reached, why = {}, {}
+    for t_id, pos, end, reason in res.tuples("AT"):
+        if pos > reached.get(t_id, 0):
+            reached[t_id], why[t_id] = pos, None
+        if pos == reached[t_id] and reason not in ("ok", "end", "out-of-order") and not why[t_id]:
+            why[t_id] = reason
+    return reached, why
+
+
 def make_families(ctx: Ctx, rng):
     fams = []
     specs = [("2018-12-01T12:00:00", 60, 3), ("2019-12-31T23:58:07", 300, 3)]
@@ -280,35 +351,92 @@ def make_families(ctx: Ctx, rng):
         variants.append({"name": "thin_obs", "mode": "tso", "drop_obs": 2})
         variants.append({"name": "thin_obs3_extras", "mode": "o", "drop_obs": 3, "extras": 1})
         variants.append({"name": "extras_gap", "mode": "ts", "extras": 2, "extras_gap": 2})
+        # an epoch absent ALTOGETHER (no Epoch row, no record of any agent): a hole in the middle, the tail
+        variants.append({"name": "hole2_ts_extras", "mode": "ts", "drop_epochs": [2], "extras": 1})
+        variants.append({"name": f"ends{n - 1}_t", "mode": "t", "drop_epochs": [n]})
+        fams.append({"start": start, "step": step, "nsteps": n, "nt": 2, "ns": 4, "variants": variants})
+    # importer databases in which whole epochs are absent: a hole across all agents, a database sampled every other
+    # step only, a database that ends before the scenario does, an empty one - by mode, with / without unrelated agents
+    specs = [("2018-12-01T12:00:00", 60, 4)]
+    if not ctx.quick:
+        specs += [("2019-12-31T23:50:07", 300, 5), ("2020-02-29T23:59:30", 7, 6)]
+    for start, step, n in specs:
+        shapes = [(f"hole{j}", [j]) for j in range(1, n)]
+        shapes += [("coarse_odd", [j for j in range(1, n + 1) if j % 2 == 0]), ("coarse_even", [j for j in range(1, n + 1) if j % 2 == 1])]
+        shapes += [(f"ends{j - 1}", list(range(j, n + 1))) for j in range(1, n + 1)]
+        variants = []
+        for i, (sname, drop) in enumerate(shapes):
+            modes = ("t", "s", "ts", "tso", "o")
+            for m, mode in enumerate(modes):
+                if ctx.quick and (i + m) % 3 and not (mode == "o" and sname == "coarse_odd"):
+                    continue
+                variants.append({"name": f"{sname}_{mode}", "mode": mode, "drop_epochs": drop, "extras": (i + m) % 2})
+        # a hole across all agents PLUS a gap for one agent at a later epoch; a hole in a database that tracks a superset
+        variants.append({"name": "hole2_gap3_ts", "mode": "ts", "drop_epochs": [2], "gaps": [["t", 0, 3]]})
+        variants.append({"name": "gap1_hole3_t", "mode": "t", "drop_epochs": [3], "gaps": [["t", 0, 1]], "extras": 2})
         fams.append({"start": start, "step": step, "nsteps": n, "nt": 2, "ns": 4, "variants": variants})
     # a target added mid-run by an event while targets are imported: it must be registered with the importer as well
     fams.append({"start": "2018-12-01T12:00:00", "step": 60, "nsteps": 4, "nt": 1, "ns": 2, "add_at": 2,
                  "variants": [{"name": "exact_t_added", "mode": "t"}, {"name": "superset_ts_added", "mode": "ts", "extras": 2},
                               {"name": "gap_added_last", "mode": "t", "gaps": [["added", 0, 4]], "extras": 1}]})
-    # two engines (disjoint networks) importing observations
-    fams.append({"start": "2018-12-01T12:00:00", "step": 60, "nsteps": 3, "nt": 2, "ns": 4, "two_engines": True,
+    # two engines (disjoint networks) importing observations; the last variant reads the database with the targets exchanged
+    fams.append({"start": "2018-12-01T12:00:00", "step": 60, "nsteps": 3, "nt": 2, "ns": 4, "src_partition": "split",
                  "variants": [{"name": "exact_tso_2eng", "mode": "tso"}, {"name": "exact_o_2eng", "mode": "o"},
-                              {"name": "superset_ts_2eng", "mode": "ts", "extras": 1}]})
+                              {"name": "superset_ts_2eng", "mode": "ts", "extras": 1},
+                              {"name": "exact_o_2eng_swapped", "mode": "o", "partition": "swapped"}]})
+    # a database produced by a ONE-engine run, read by two-engine scenarios: it holds observations whose sensor and target
+    # now belong to different engines (disjoint networks either way round; a target shared by both engines)
+    specs = [("2018-12-01T12:00:00", 60, 3)] + ([] if ctx.quick else [("2019-12-31T23:58:07", 300, 4)])
+    for start, step, n in specs:
+        variants = [{"name": f"xeng_{part}_{mode}", "mode": mode, "partition": part}
+                    for part in ("split", "swapped", "shared") for mode in (("o", "tso") if part != "shared" or not ctx.quick else ("o",))]
+        variants.append({"name": "xeng_split_thin_obs", "mode": "o", "partition": "split", "drop_obs": 3, "extras": 1})
+        variants.append({"name": "xeng_swapped_hole2_o", "mode": "o", "partition": "swapped", "drop_epochs": [2]})
+        fams.append({"start": start, "step": step, "nsteps": n, "nt": 2, "ns": 4, "cross_engine": True, "variants": variants})
     return fams
 
 
 def run(ctx: Ctx):
     rng = random.Random(ctx.seed + 1919)
     ctx.rule = ("one case = one real run against one derived importer database (mode t/s/o = targets / sensors / observations "
-                "imported; exact, superset, gap at (agent, epoch) with or without unrelated extras, thinned observations); "
+                "imported; exact, superset, gap at (agent, epoch) with or without unrelated extras, whole epochs absent from the database "
+                "- hole / every other epoch / tail / all -, thinned observations; one engine, two engines partitioned as in the "
+                "source run or differently: cross-engine observations, shared targets); "
                 "non-trivial = anything but the exact copy; distinct by (family, variant)")
     ctx.assumptions = ["importer databases are derived from a real output database with plain sqlite3",
+                       "an epoch is 'absent' when its Epoch row and every record hanging on it are deleted (dangling records without "
+                       "an Epoch row are not posed: the statement does not say whether they are records of that epoch)",
+                       "which engine carries an imported observation to the filter is not bound, only that it arrives exactly once",
                        "an agent's state is matched to importer rows by exact float equality of all six components"]
-    for name, expect in (("MCImporter_designed.cfg", False), ("MCImporter_coded.cfg", True)):
-        res = tlc.require_ok(tlc.run_tlc("MCImporter", name, ctx.sub(name[:-4]), workers=ctx.cpus, timeout=1800))
-        ctx.add_tlc(res, f"Importer.tla exhaustive over all importer row sets ({name})")
-        viol = [v[0] for v in res.invariant_violations] + [v[0] for v in res.property_violations]
-        if bool(viol) != expect:
-            raise tlc.MachineryError(f"{name}: expected violation={expect}, got {viol}")
-    ctx.extra["spec_mutants_killed"] = 1
+    # the designed specification must hold over the whole configuration space (with full action coverage); each named
+    # deviation must be refuted by the invariant that states the clause it breaks
+    mc = [("MCImporter_designed.cfg" if ctx.quick else "MCImporter_designed_thorough.cfg", set()),
+          ("MCImporter_coded.cfg", {"ImportFaithful", "NoStaleState"}),
+          ("MCImporter_skipepoch.cfg", {"ImportFaithful", "NoStaleState"}),
+          ("MCImporter_everyengine.cfg", {"ObsReachFilter"}),
+          ("MCImporter_owntargets.cfg", {"ObsReachFilter"})]
     fams = make_families(ctx, rng)
-    with ProcessPoolExecutor(max_workers=min(ctx.cpus, len(fams), 8)) as ex:
-        results = list(ex.map(_run_family, fams))
+    w = max(2, ctx.cpus // 4)
+    dirs = {name: ctx.sub(name[:-4]) for name, _ in mc}
+    # TLC runs and scenario families share one process pool (no threads in this process: forking a process that runs
+    # threads can dead-lock the children); the long jobs go first
+    with ProcessPoolExecutor(max_workers=min(ctx.cpus, len(fams) + len(mc), 10)) as ex:
+        futs = [ex.submit(_run_mc, name, str(dirs[name]), ctx.cpus if not expect and not ctx.quick else w, not expect) for name, expect in mc]
+        results = list(ex.map(_run_family, sorted(fams, key=lambda f: -len(f["variants"]))))
+        tlc_results = [f.result() for f in futs]
+    for (name, expect), res in zip(mc, tlc_results):
+        res = tlc.require_ok(res)
+        ctx.add_tlc(res, f"Importer.tla exhaustive over all importer databases / engine partitions ({name})")
+        viol = {v[0] for v in res.invariant_violations} | {v[0] for v in res.property_violations}
+        if (expect and not (viol and viol <= expect)) or (not expect and viol):
+            raise tlc.MachineryError(f"{name}: expected violation of {sorted(expect) or 'nothing'}, got {sorted(viol)}")
+        if not expect:
+            actions = ("BeginStep", "ImportOk", "SkipImport", "ImportMissing", "LoadObsSome", "UpdateFilters", "EndStep")
+            taken = {a: res.coverage.get(f"Importer!{a}", (0, 0))[0] for a in actions}
+            ctx.extra["spec_action_coverage"] = taken
+            if not all(taken.values()):
+                raise tlc.MachineryError(f"{name}: an action of Importer.tla is never taken: {taken}")
+    ctx.extra["spec_mutants_killed"] = len(mc) - 1
     traces, owners = [], []
     for r in results:
         for run_ in r["runs"]:
@@ -321,9 +449,11 @@ def run(ctx: Ctx):
     ctx.add_tlc(res, f"TraceImporter.tla: {len(traces)} recorded runs")
     if res.property_violations:
         raise tlc.MachineryError("ImporterReadOnly violated inside the trace spec (the spec never changes impdb)")
-    reached = {}
-    for t_id, pos, end in res.tuples("AT"):
-        reached[t_id] = max(reached.get(t_id, 0), pos)
+    reached, why = _positions(res)
+    missing = [i + 1 for i in range(len(traces)) if (i + 1) not in reached]
+    if missing:
+        raise tlc.MachineryError(f"traces {missing[:5]} have no initial state in TraceImporter.tla (configuration not well-formed): "
+                                 f"{json.dumps(traces[missing[0] - 1][0])[:400]}")
     inv = {}
     import re
     for name, states in res.invariant_violations:
@@ -332,33 +462,53 @@ def run(ctx: Ctx):
         m = re.findall(r"/\\ tid = (\d+)", "\n".join(states))
         if m:
             inv.setdefault(int(m[-1]), name)
-    n_raise = 0
+    n_raise = n_absent_raise = n_cross = n_cross_runs = 0
     for i, (fam, run_) in enumerate(owners):
         var = run_["variant"]
         ctx.case((json.dumps(fam, sort_keys=True), var["name"]), nontrivial=not var["name"].startswith("exact"),
                  sample={"family": fam, "variant": var, "trace_head": run_["trace"][1:5]} if len(ctx.samples) < 4 and "gap" in var["name"] else None)
         ctx.traces_validated += 1
-        n_raise += any(e["ev"] == "ImportMissing" for e in run_["trace"])
-        pos = reached.get(i + 1, 2)
+        raised = any(e["ev"] == "ImportMissing" for e in run_["trace"])
+        n_raise += raised
+        n_absent_raise += bool(raised and var.get("drop_epochs"))
+        c0 = run_["trace"][0]
+        eng_of = {s_: e for e, ss, _ in c0["engines"] for s_ in ss}
+        tracks = {e: set(tt) for e, _, tt in c0["engines"]}
+        cross = {(k_, t_, s_) for k_, t_, s_ in map(tuple, c0["obs"]) if t_ not in tracks[eng_of[s_]]}
+        delivered = {tuple(o) for e in run_["trace"] if e["ev"] == "LoadObs" for _, lst in e["reached"] for o in lst}
+        n_cross += len(cross & delivered)
+        n_cross_runs += bool(cross & delivered)
+        pos = reached[i + 1]
         ok = pos == len(traces[i]) + 1 and (i + 1) not in inv
         if not ok:
             ev = traces[i][pos - 1] if pos <= len(traces[i]) else {}
-            kind = "gap" if var.get("gaps") else ("thinobs" if var.get("drop_obs") else "complete")
+            kind = "absent-epoch" if var.get("drop_epochs") else "gap" if var.get("gaps") else ("thinobs" if var.get("drop_obs") else "complete")
+            if len(c0["engines"]) > 1:
+                kind += "+cross-engine-obs" if cross else "+several-engines"
             extras = "with-unrelated" if var.get("extras") else "no-unrelated"
-            what = inv.get(i + 1) or ("crash" if ev.get("ev") == "Crash" else f"unexplained-{ev.get('ev', 'end')}")
+            reason = why.get(i + 1)
+            what = inv.get(i + 1) or ("crash" if ev.get("ev") == "Crash" else reason or f"unexplained-{ev.get('ev', 'end')}")
             sig = f"importer:{kind}:{extras}:{what}"
             ctx.violation(sig, f"{sig}: variant {json.dumps(var)} of family {json.dumps(fam)} at trace line {pos}: {json.dumps(ev)[:300]}",
                           {"family": dict(fam, variants=[{k: v for k, v in var.items()}]), "trace": traces[i]})
     ctx.extra["runs_that_raised_missing_ephemeris"] = n_raise
+    ctx.extra["runs_that_raised_at_an_epoch_absent_from_the_importer"] = n_absent_raise
+    ctx.extra["cross_engine_observations_delivered"] = n_cross
+    ctx.extra["runs_with_cross_engine_observations_delivered"] = n_cross_runs
     if n_raise == 0:
         raise tlc.MachineryError("no derived database made the run raise MissingEphemerisError (gap derivation ineffective)")
+    if not ctx.violations and (n_absent_raise == 0 or n_cross == 0):
+        raise tlc.MachineryError(f"vacuous: runs raising at an absent epoch = {n_absent_raise}, cross-engine observations delivered = {n_cross}")
 
 
 def replay(ctx: Ctx, rp: dict):
     fam = rp["replay"]["family"]
     # the stored variant has real ids in gaps; convert back is not possible -> rerun the whole family description
-    fams = [f for f in make_families(ctx, random.Random(0)) if f["start"] == fam["start"] and f["step"] == fam["step"]]
     name = fam["variants"][0]["name"]
+    same = lambda f: all(f.get(k_) == fam.get(k_) for k_ in set(f) | set(fam) if k_ != "variants")  # noqa: E731
+    fams = [f for f in make_families(ctx, random.Random(0)) if same(f) and any(v["name"] == name for v in f["variants"])]
+    if not fams:
+        raise tlc.MachineryError(f"replay: no family of tier {ctx.tier} has the variant {name} (try the tier the replay file was written by)")
     for f in fams:
         f["variants"] = [v for v in f["variants"] if v["name"] == name]
     r = _run_family(fams[0])
@@ -368,7 +518,8 @@ def replay(ctx: Ctx, rp: dict):
     res = tlc.require_ok(tlc.run_tlc("TraceImporter", "TraceImporter.cfg", d, workers=1, cont=True, env={"TRACE_FILE": "traces.json"}))
     ctx.add_tlc(res, "replay")
     pos = max([t[1] for t in res.tuples("AT")] or [1])
+    _, why = _positions(res)
     ctx.case(("replay", name))
     ctx.case(("replay-done",))
     if pos != len(traces[0]) + 1 or any(n != "Accept" for n, _ in res.invariant_violations):
-        ctx.violation("importer:replay", f"variant {name} still not a behaviour of Importer.tla", {"family": fam})
+        ctx.violation("importer:replay", f"variant {name} still not a behaviour of Importer.tla ({why.get(1)})", {"family": fam})
